@@ -1080,7 +1080,7 @@ impl Engine for DeriveSim {
     }
     fn runs(&self, tier: Tier) -> u64 {
         match tier {
-            Tier::Quick => 60_000,
+            Tier::Quick => 600_000,
             Tier::Thorough => 24_000_000,
         }
     }
